@@ -115,6 +115,7 @@ fn run_setup(s: &Setup<'_>, acc: &mut Acc, states: &mut HashSet<u64>) {
                 case: format!("{label} seq=[{}]", show_seq()),
                 desc: format!("{label}: after add_command sequence [{}]: {clause_desc}", show_seq()),
                 replay: json!({"dag": dag_to_json(&w.dag), "label": w.label, "layout": s.layout.tag(), "sequence": letters[..=step].iter().map(|l| l.show()).collect::<Vec<_>>() }),
+                fixed_key: false,
             };
             if let Err(e) = res {
                 acc.fault("add-command-error", mk(format!("add_command returned {e}")));
